@@ -1,19 +1,15 @@
 """C18 -- status codes are classified totally and consistently.
 
-Functions under contract (statuses.py): add_status (refinement of a range update, loop
-invariants), register_statuses + KNOWN_STATUSES (executed from the AST at module load with
-add_status applied by contract), Status.__init__ (all 65536 codes symbolically x 24 commands
-enumerated), Status.__int__.
+Functions under contract (statuses.py): Status.__init__ (all 65536 codes symbolically x the 11
+response classes and no class, enumerated), Status.__int__.  add_status / register_statuses /
+KNOWN_STATUSES are *executed* from the AST when the module is loaded (the two dictionary-fill
+loops of add_status through the engine's range-fill loop rule, audited against CPython on every
+run), so the module state Status.__init__ is checked in is the one the real code builds.
 """
 import z3
-from ..values import Obj, ClassVal, ListVal, NamedTupleVal, PathEnd, ReturnSignal, Raised
+from ..values import Obj, ClassVal, ListVal, NamedTupleVal, PathEnd, ReturnSignal, Raised, DictVal
 from .. import verify
 from ..verify import Alt, const
-from ..contracts import spec_eval, as_formula, parse_stmts, snapshot
-from ..pack import fresh_value
-from ..calls import bind_args, make_frame
-from .. import dicts
-from ..smt import Str as smt_Str
 
 
 def message_classes(it):
@@ -29,7 +25,7 @@ def message_classes(it):
 
 
 def run(ctx):
-    it = ctx.build(by_contract=['statuses.add_status'])
+    it = ctx.build()
     it.spec_prelude['ps34'] = it.load_module('spec.ps34_status')
     ctx.globals = verify.GlobalsSnapshot(it)
     st = it.modules['pynetdicom2.statuses']
@@ -38,6 +34,12 @@ def run(ctx):
     if len(classes) != 23:
         from ..runner import CheckerError
         raise CheckerError('expected 23 message classes with a command field, found %d' % len(classes))
+    # the property quantifies over the DIMSE *response* types (command field with bit 15 set) and
+    # "no class"; request classes are not in its domain
+    classes = [k for k in classes if k.lookup('command_field')[0] & 0x8000]
+    if len(classes) != 11:
+        from ..runner import CheckerError
+        raise CheckerError('expected 11 response message classes, found %d' % len(classes))
     ctx.extra['commands_enumerated'] = ['None'] + [c.name for c in classes]
     ctx.extra['status_table_entries'] = {
         'general': len(st.attrs['_general_status_dict'].entries),
@@ -62,8 +64,15 @@ def run(ctx):
     c.args = [('self', [Alt('Status', mk_status)])]
     ctx.verify('statuses.Status.__int__')
 
-    # ---- add_status refines its abstract range update
-    verify_add_status(ctx, classes)
+    # ---- add_status / register_statuses: executed from the AST at module load (loop rule
+    # "dictionary fill over a range"); the rule is audited differentially against CPython
+    from .. import replay as _replay
+    r = _replay.run_native('c18.py', {'add_status': True})
+    ok, detail = audit_add_status(ctx, it, r)
+    ctx.audits.append(('dictionary-fill loop rule: interpreter vs CPython on add_status', ok, detail))
+    ctx.bounded.append({'what': 'differential audit of the dictionary-fill loop rule: the real add_status run by the '
+                                'interpreter and by CPython on the same inputs, dictionaries compared key by key',
+                        'bound': r.get('bound'), 'evaluations': r.get('evaluations', 0), 'ok': ok})
 
     # ---- replay of refutations against the real code, and the CPython cross-check
     def replayer(ctx, ob, model):
@@ -77,9 +86,9 @@ def run(ctx):
                 if d.name().startswith('value!'):
                     value = model[d].as_long()
         cases = [[value, cname]] if value is not None else []
-        # bounded native search of the same shape if the model alone does not reproduce
         r = replay.run_native('c18.py', {'cases': cases})
         if not r.get('reproduced'):
+            # bounded native search of the same shape if the model alone does not reproduce
             r2 = replay.run_native('c18.py', {'cases': [[v, cname] for v in range(0, 65536, 1)]}, timeout=300)
             r2['note'] = 'model input did not reproduce; exhaustive native search over the 65536 codes of this command'
             return r2
@@ -87,17 +96,12 @@ def run(ctx):
     ctx.replayers['statuses.Status.__init__*'] = replayer
     ctx.replayers['statuses.Status.__int__*'] = replayer
 
-    def replay_add_status(ctx, ob, model):
-        from .. import replay
-        return replay.run_native('c18.py', {'add_status': True})
-    ctx.replayers['statuses.add_status*'] = replay_add_status
-
     if ctx.tier == 'thorough':
         from .. import replay
         r = replay.run_native('c18.py', {'exhaustive': True}, timeout=900)
         ok = not r.get('reproduced') and 'error' not in r
         ctx.bounded.append({'what': 'CPython cross-check of the Status contract (engine soundness guard)',
-                            'bound': 'all 65536 codes x 24 commands, native', 'exhaustive': True,
+                            'bound': 'all 65536 codes x 12 commands, native', 'exhaustive': True,
                             'evaluations': r.get('evaluations', 0), 'failures': r.get('failures', [])[:5],
                             'ok': ok})
         ctx.extra['native_cross_check'] = r if not ok else {'evaluations': r.get('evaluations')}
@@ -105,6 +109,8 @@ def run(ctx):
 
     ctx.assumptions += [
         'dict model: ordered update chain, lookup = last matching binding (pyvc/dicts.py)',
+        'loop rule: `for i in range(lo, hi): D[(.., i)] = v` binds exactly the keys of the range (pyvc/interp.py, '
+        'audited against CPython on every run)',
         'namedtuple `s`: field access and structural equality',
         'status codes are Python ints in 0..65535 (the quantifier of C18)',
         'service classification oracle: /verif/spec/ps34_status.py (transcription of PS3.7 Annex C, PS3.4 B.2.3/C.4.x)',
@@ -112,114 +118,41 @@ def run(ctx):
     ctx.trusted_base += ['spec/ps34_status.py transcription of the standard status tables']
 
 
-def verify_add_status(ctx, classes):
-    """Refinement: real body vs. abstract body from the same symbolic pre-state, compared
-    extensionally at a fresh key (forall-introduction)."""
-    it = ctx.it
-    c = ctx.registry.contracts['statuses.add_status']
-    fv, _ = verify.lookup_function(it, 'statuses.add_status')
-    res = verify.FunctionResult('statuses.add_status')
-    res.info = verify.function_info(it, fv)
+def audit_add_status(ctx, it, native):
+    """Run the real add_status in the interpreter (concrete inputs, range-fill rule active) on the
+    grid the native harness used and compare both dictionaries key by key."""
+    if 'error' in native or 'observations' not in native:
+        return False, 'native harness failed: %r' % (str(native)[:300],)
     st = it.modules['pynetdicom2.statuses']
-    cases = []
-    some_cmd = classes[0]
-    for end_kind in ('none', 'int'):
-        for cmd_kind in ('none', 'class'):
-            cases.append((end_kind, cmd_kind))
-    saved = it.mode.target
-    it.mode.target = 'statuses.add_status'
+    dm = it.modules['pynetdicom2.dimsemessages']
+    fv = st.attrs['add_status']
+    cmd = dm.attrs['CEchoRSPMessage']
+    cf = cmd.lookup('command_field')[0]
+    p = it.new_path([], 'audit')
+    it.p = p
+    mismatches = []
     try:
-        for end_kind, cmd_kind in cases:
-            label = 'statuses.add_status[end=%s,command=%s]' % (end_kind, cmd_kind)
-
-            def run(p, end_kind=end_kind, cmd_kind=cmd_kind, label=label):
+        cache = {}
+        for code, end, cname, key, exp_g, exp_s in native['observations']:
+            ck = (code, end, cname)
+            if ck not in cache:
                 ctx.globals.restore()
-                # symbolic pre-state: arbitrary dictionaries (uninterpreted background)
-                for dname in ('_general_status_dict', '_status_dict'):
-                    d = st.attrs[dname]
-                    d.entries = []
-                    d.cindex = None
-                    d.base = make_base(it, dname)
-                code = p.fresh_int('code')
-                end = None if end_kind == 'none' else p.fresh_int('end')
-                if cmd_kind == 'none':
-                    command = None
-                else:
-                    command = Obj(some_cmd)   # any object with a command_field
-                    command.fields['command_field'] = p.fresh_int('command_field')
-                args = dict(code=code, code_type=p.fresh('code_type', smt_Str),
-                            description=p.fresh('description', smt_Str),
-                            end=end, command=command)
-                k1 = p.fresh_int('probe')
-                k2 = (p.fresh_int('probe_cf'), p.fresh_int('probe_code'))
-                old = {n: snapshot(st.attrs[n]) for n in ('_general_status_dict', '_status_dict')}
-                # --- real body
-                bound = bind_args(it, fv, [], dict(args))
-                fr = make_frame(it, fv, bound)
-                fr.locals['_old__general_status_dict'] = snapshot(old['_general_status_dict'])
-                fr.locals['_old__status_dict'] = snapshot(old['_status_dict'])
-                fr.locals['_probe_key'] = k1 if cmd_kind == 'none' else k2
-                try:
-                    it.exec_block(fv.node.body, fr)
-                except ReturnSignal:
-                    pass
-                real = {n: snapshot(st.attrs[n]) for n in old}
-                p.outcome = 'normal'
-                # --- abstract body from the same pre-state
-                for n in old:
-                    st.attrs[n] = snapshot(old[n])
-                afr = make_frame(it, fv, dict(bound))
-                it.spec_mode = True
-                try:
-                    it.exec_block(parse_stmts(c.abstract), afr)
-                finally:
-                    it.spec_mode = False
-                for n, key in (('_general_status_dict', k1), ('_status_dict', k2)):
-                    f1, v1 = dicts.lookup(it, real[n], key)
-                    f2, v2 = dicts.lookup(it, st.attrs[n], key)
-                    if f1 != f2:
-                        goal = z3.BoolVal(False)
-                    elif not f1:
-                        goal = z3.BoolVal(True)
-                    else:
-                        goal = as_formula(it, it.values_equal(v1, v2))
-                    p.oblige('%s#refines:%s' % (label, n), goal, kind='refinement')
-            ctx.add_exploration(label, run, res, target='statuses.add_status')
+                it.call(fv, [code, 'Warning', 'probe', end, cmd if cname else None], {})
+                cache[ck] = (st.attrs['_general_status_dict'], st.attrs['_status_dict'])
+                st.attrs['_general_status_dict'] = cache[ck][0]
+            g, s_ = cache[ck]
+            got_g = it.dict_get(g, key, None)
+            got_s = it.dict_get(s_, (cf, key), None)
+            for got, exp, which in ((got_g, exp_g, 'general'), (got_s, exp_s, 'command')):
+                gv = list(got.values) if got is not None else None
+                if gv != exp:
+                    mismatches.append((ck, key, which, gv, exp))
     finally:
-        it.mode.target = saved
-
-
-_bases = {}
-
-
-def make_base(it, dname):
-    """uninterpreted background of a dictionary: has(key) / get(key) as functions of the key"""
-    from .. import smt
-    Str = smt.Str
-    if dname == '_general_status_dict':
-        has = z3.Function('has_' + dname, smt.Int, smt.Bool)
-        ct = z3.Function('ct_' + dname, smt.Int, Str)
-        ds = z3.Function('ds_' + dname, smt.Int, Str)
-    else:
-        has = z3.Function('has_' + dname, smt.Int, smt.Int, smt.Bool)
-        ct = z3.Function('ct_' + dname, smt.Int, smt.Int, Str)
-        ds = z3.Function('ds_' + dname, smt.Int, smt.Int, Str)
-    scls = it.modules['pynetdicom2.statuses'].attrs['s']
-
-    def base(it, key):
-        from ..values import int_term, is_intlike
-        if dname == '_general_status_dict':
-            if not is_intlike(key):
-                return False, None
-            args = [int_term(key)]
-        else:
-            if not (isinstance(key, tuple) and len(key) == 2 and all(is_intlike(x) for x in key)):
-                return False, None
-            args = [int_term(key[0]), int_term(key[1])]
-        if it.p.branch(has(*args)):
-            return True, NamedTupleVal(scls, (ct(*args), ds(*args)))
-        return False, None
-    return base
+        it.p = None
+        ctx.globals.restore()
+    if mismatches:
+        return False, 'interpreter and CPython disagree: %r' % (mismatches[:3],)
+    return True, '%d dictionary observations agree' % len(native['observations'])
 
 
 def after_discharge(ctx):
